@@ -201,7 +201,7 @@ func (g *tplGen) elem(d int, condKind string) string {
 		nd++
 	}
 	for k := r.n(3); k > 0 && r.p(45); k-- {
-		n := r.pick([]string{"title", "class", "id", "href", "data-x"})
+		n := r.pick([]string{"title", "class", "id", "href", "data-x", "hidden", "lang"}) // hidden / lang: the static twin is valueless / unquoted
 		dup := false
 		for _, a := range as {
 			if strings.HasPrefix(a, " "+g.ap+n+"=") {
